@@ -31,13 +31,20 @@ THEOREMS = [
     "Typedpy.C09.roundtrip_counterexample_required_absent",
     "Typedpy.C09.roundtrip_counterexample_single_field",
     "Typedpy.C09.roundtrip_statement_false",
+    "Typedpy.C09.refName_refOf",
+    "Typedpy.C09.ref_roundtrip",
+    "Typedpy.C09.refName_examples",
     "Typedpy.C09.required_not_mutated",
     "Typedpy.C09.emitted_required_example",
     "Typedpy.C09.roundtrip_example",
 ]
 RULE = ("schemas from a recursive generator over the keyword set (type, properties, required, additionalProperties, "
         "items as schema/list, uniqueItems, additionalItems, min/max*, multiplesOf, pattern, enum, allOf/anyOf/oneOf/not, "
-        "$ref into 0-3 ordered definitions, default, description), depth <= 3/4; string payloads for pattern / enum / "
+        "$ref into 0-3 ordered definitions, default, description), depth <= 3/4; definition and class names from a pool of "
+        "identifiers whose heads cover every letter of '#/definitions/' (d e f i n t o s), other lower/upper-case letters, digits and "
+        "underscores inside, names that are prefixes/suffixes of one another; a directed stream of 44 cases: every head letter x "
+        "every position a $ref can stand in (property, items, positional items, combinator member, map value, nested object, "
+        "definition-to-definition); string payloads for pattern / enum / "
         "default / description drawn from plain + hostile pieces (quotes, backslashes, escape-looking sequences, raw "
         "newline / CR / tab, triple quotes, non-ASCII incl. non-printable) with hostile probability 0/0.1/0.3; a fixed "
         "list of the known-finding schemas; through schema_to_struct_code + schema_definitions_to_code or "
